@@ -149,4 +149,111 @@ theorem ratio_path_regenerated (q : QVal) :
     simp only [ratio_den_const_guard, decide_eq_true_eq] at h
     exact bitLen_le_lt m 32 h
 
+-- ====================================================================== round 6: the text handling in front of the float parser
+
+theorem strip_prefix_cons (c x : Nat) (r : Bytes) :
+    strip_prefix c (x :: r) = if x = c then some r else none := rfl
+
+/-- the regenerated statements in front of the parser call of `parse_binary_float` compute what the hand
+    model's `stripSign` / `stripUs` / `fbigSecondSign` compute, for every text -/
+theorem fbig_prelude_eq (s : Bytes) :
+    fbig_prelude s =
+      (let u := stripUs (stripSign s).2
+       if u.head? == some 45 || u.head? == some 43 then none else some ((stripSign s).1, u)) := by
+  have key : ∀ t : Bytes, (strip_prefix 95 t).getD t = stripUs t := by
+    intro t
+    match t with
+    | [] => rfl
+    | x :: r =>
+      by_cases h : x = 95
+      · subst h; rfl
+      · simp only [strip_prefix_cons, h, if_false, Option.getD_none]
+        unfold stripUs
+        split
+        · rename_i heq; simp only [List.cons.injEq] at heq; exact absurd heq.1 h
+        · rfl
+  have sw : ∀ (c : Nat) (t : Bytes), starts_with c t = (t.head? == some c) := by
+    intro c t
+    match t with
+    | [] => simp [starts_with, strip_prefix]
+    | x :: r =>
+      simp only [starts_with, strip_prefix_cons, List.head?_cons]
+      by_cases h : x = c <;> simp [h]
+  have ss : ∀ (x : Nat) (r : Bytes), x ≠ 45 → x ≠ 43 → stripSign (x :: r) = (false, x :: r) := by
+    intro x r h1 h2
+    unfold stripSign
+    split
+    · rename_i heq; simp only [List.cons.injEq] at heq; exact absurd heq.1 h1
+    · rename_i heq; simp only [List.cons.injEq] at heq; exact absurd heq.1 h2
+    · rfl
+  unfold fbig_prelude
+  match s with
+  | [] => rfl
+  | x :: r =>
+    by_cases h1 : x = 45
+    · subst h1
+      simp only [key, sw]
+      simp only [strip_prefix_cons, if_true]; rfl
+    · by_cases h2 : x = 43
+      · subst h2
+        simp only [key, sw]
+        simp only [strip_prefix_cons, h1, if_false, if_true, Option.getD_some]; rfl
+      · simp only [key, sw]
+        simp only [strip_prefix_cons, h1, h2, if_false, Option.getD_none, ss x r h1 h2]
+
+/-- Tie A for `parse_binary_float`'s text handling: the hand model `fbigNew` (which the driver runs and the
+    value theorems `fbig_strip_is_runtime_parse`, `fbig_hex_literal_value` of Props/C20 are about) is the
+    REGENERATED prelude (`strip_prefix('-')` / `strip_prefix('+')` / `strip_prefix('_')` / second-sign refusal)
+    followed by the parser of the regenerated base and the regenerated `assert!(signif.is_positive())`, for
+    every token list -/
+theorem fbig_prelude_regenerated (toks : List Tok) :
+    fbigNew toks =
+      (fbig_prelude (concatToks toks)).bind fun p =>
+        match floatParse fbig_parser_base p.2 with
+        | none => none
+        | some (v, nd) =>
+          if fbig_asserts_positive && decide (v.signif < 0) then none
+          else some (p.1, v.signif.natAbs, v.exp, nd) := by
+  rw [fbig_prelude_eq]
+  unfold fbigNew fbigSecondSign fbigAsIs
+  by_cases h : ((stripUs (stripSign (concatToks toks)).2).head? == some 45 ||
+      (stripUs (stripSign (concatToks toks)).2).head? == some 43) = true
+  · simp only [h, if_true, Option.bind_none]
+  · simp only [h, Bool.false_eq_true, if_false, Option.bind_some, fbig_parser_base, fbig_asserts_positive,
+      Bool.true_and, decide_eq_true_eq]
+    cases hp : floatParse 2 (stripUs (stripSign (concatToks toks)).2) with
+    | none => rfl
+    | some q => rfl
+
+/-- the same for `parse_decimal_float`: no statement between the concatenation and `DBig::from_str`, base 10,
+    sign and magnitude from `signif.into_parts()`, no assert -/
+theorem dbig_prelude_regenerated (toks : List Tok) :
+    dbigAsIs toks =
+      (dbig_prelude (concatToks toks)).bind fun p =>
+        match floatParse dbig_parser_base p.2 with
+        | none => none
+        | some (v, nd) =>
+          if dbig_asserts_positive && decide (v.signif < 0) then none
+          else some (decide (v.signif < 0), v.signif.natAbs, v.exp, nd) := by
+  unfold dbigAsIs dbig_prelude
+  simp only [Option.bind_some, dbig_parser_base, dbig_asserts_positive, Bool.false_and, Bool.false_eq_true, if_false]
+  cases floatParse 10 (concatToks toks) with
+  | none => rfl
+  | some q => rfl
+
+/-- non-vacuity: `-_0xae.1f`, `_+1` (refused), `+_1` through the regenerated prelude -/
+example : fbig_prelude [45, 95, 48, 120, 97] = some (true, [48, 120, 97]) ∧ fbig_prelude [95, 43, 49] = none ∧
+    fbig_prelude [43, 95, 49] = some (false, [49]) ∧ fbig_prelude [45, 45, 49] = none ∧
+    fbig_prelude [95, 95, 49] = some (false, [95, 49]) := by decide
+
+-- ====================================================================== round 6: quote_sign
+
+/-- `quote_sign` regenerated: for each `embedded` flag and each sign exactly one arm, and it writes the sign it was
+    given (`Sign::Negative` for a negative literal) in the namespace of the flag (`::dashu_base` / `::dashu::base`) —
+    what the harness interpreter of the expansion reads and what the sign of every ibig!/rbig!/fbig!/dbig! value rests on -/
+theorem quote_sign_regenerated (embedded neg : Bool) :
+    quote_sign_arms.filterMap (fun r => if r.1 = embedded ∧ r.2.1 = neg then some r.2.2 else none) =
+      [(if embedded then "::dashu::base" else "::dashu_base") ++ "::Sign::" ++ (if neg then "Negative" else "Positive")] := by
+  cases embedded <;> cases neg <;> decide
+
 end Dashu.Props.C20Gen
